@@ -412,6 +412,18 @@ pub fn c03_programs() -> Vec<Arc<Prog>> {
     .collect()
 }
 
+/// A snapshot taken while a write is in flight must not change its answers when the write lands:
+/// two preemptions (writer parked inside its unlocked section, reader parked between its two
+/// reads through the snapshot) on tiny programs.
+pub fn c03_stability_programs() -> Vec<Arc<Prog>> {
+    vec![
+        prog_big("snapread||put", vec![Put(0, 1, 8)], vec![vec![SnapRead(vec![0, 1])], vec![Put(0, 2, 8)]]),
+        prog_big("snapread||batch", vec![Put(0, 1, 8)], vec![vec![SnapRead(vec![0, 1])], vec![Batch(vec![(0, Some(2)), (1, Some(2))])]]),
+        prog_big("snapread||del", vec![Put(0, 1, 8)], vec![vec![SnapRead(vec![0])], vec![Del(0)]]),
+        prog("snapread||put-rotating", vec![Put(0, 1, 8)], vec![vec![SnapRead(vec![0, 1])], vec![Put(1, 2, 8), Put(0, 3, 8)]]),
+    ]
+}
+
 /// Readers against a cascade of size-triggered compactions and trivial moves through all levels
 /// (levels 1..=5 limited to 250 bytes by the hook; the setup leaves files down to the last level).
 pub fn levels_programs() -> Vec<Arc<Prog>> {
